@@ -14,7 +14,9 @@ import common
 TYPES = ['text', 'application', 'image', '*', 'TEXT', 'x']
 SUBTYPES = ['html', 'json', 'plain', '*', 'xml', 'vnd.api+json', 'JSON']
 PARAMS = ['charset=utf-8', 'charset=UTF-8', 'level=1', 'level=2', 'version="1.0"', 'k="a;b"', 'k="a\\"b"', 'k=a',
-          'Charset=utf-8', 'level = 1', 'k=""', 'k="x', 'flag', '=v', 'k="a\\\\"']
+          'Charset=utf-8', 'level = 1', 'k=""', 'k="x', 'flag', '=v', 'k="a\\\\"',
+          'k="x,y"', 'k="x, text/html;q=0.9"', 'k="x\\",y"', 'k="x\\\\",y="z"', 'b="a,b', 'k=","', 'k="a\\,b"',
+          'boundary="ab,cd"']
 QVALS = ['0', '1', '0.5', '0.001', '1.000', '0.', '.5', '0.9999', '0.8', '0.80', '1.5', '-0.1', 'abc', '', '1e-1',
          'inf', 'nan', '0_1', '0.1234567890123456789', '٠.٥'.encode('utf-8').decode('latin-1'), ' 0.5 ',
          '+0.5', '-0', '0.3', '0.30000000000000004', '"0.7"', '1.', '00.5', '0.0']
@@ -40,6 +42,11 @@ def gen_header(rng):
     return rng.choice([',', ', ', ' , ']).join(gen_media_type(rng, True) for _ in range(n))
 
 
+def cfg(table):
+    """model configuration: the repaired (quote-aware) range-list splitting + the float() table"""
+    return [True, table]
+
+
 def float_oracle(s):
     try:
         v = float(s)
@@ -58,7 +65,10 @@ def oracle_table(mediatypes, strings):
     for h in strings:
         if h is None:
             continue
-        for member in h.split(','):
+        members = set(h.split(','))
+        if hasattr(mediatypes, '_split_media_ranges'):
+            members |= set(mediatypes._split_media_ranges(h))
+        for member in members:
             try:
                 _, params = mediatypes.parse_header(member)
             except Exception:  # noqa: BLE001
@@ -138,17 +148,17 @@ def check_negotiation(ctx, model, falcon, n):
                 accepts.append(('err', 3, type(e).__name__))
         idx0 = len(cases)
         for c in cands:
-            cases.append([0, table, c, header])            # quality with the float oracle (exact)
-            cases.append([0, [], c, header])               # quality with the decimal float model only
-        cases.append([1, table, cands, header])
+            cases.append([0, cfg(table), c, header])            # quality with the float oracle (exact)
+            cases.append([0, cfg([]), c, header])               # quality with the decimal float model only
+        cases.append([1, cfg(table), cands, header])
         # falcon.testing strips header values: the request sees header.strip()
-        cases.append([3, table, [header.strip()] if hdr_present else [], cands])
+        cases.append([3, cfg(table), [header.strip()] if hdr_present else [], cands])
         for c in cands:
-            cases.append([2, table, [header.strip()] if hdr_present else [], c])
+            cases.append([2, cfg(table), [header.strip()] if hdr_present else [], c])
         # oracles on the implementation's values
         for c, qv in zip(cands, quals):
             if qv[0] == 'ok':
-                cases.append([7, table, c, header, fq(qv[1])])
+                cases.append([7, cfg(table), c, header, fq(qv[1])])
         if all(qv[0] == 'ok' for qv in quals) and best[0] == 'ok':
             cases.append([8, [[c, fq(qv[1])] for c, qv in zip(cands, quals)], [] if best[1] is None else [best[1]]])
         meta.append((idx0, header, cands, quals, best, prefers, accepts, hdr_present))
@@ -251,6 +261,26 @@ def check_parse_header(ctx, model, falcon, quick):
                                       'model': repr(mod)})
 
 
+def check_split(ctx, model, falcon, quick):
+    """The splitting of the range list: all strings <= 6 (thorough 7) over `a , " \\ ;` plus generated
+    headers, through the public `quality` (a/b against the header) and, when present, the helper."""
+    from falcon import mediatypes
+    rng = ctx.rng
+    vals = [''.join(t) for n in range(0, (6 if quick else 7) + 1) for t in itertools.product('a,"\\;', repeat=n)]
+    vals += [gen_header(rng) for _ in range(1000 if quick else 10000)]
+    outs = model.run_many([[10, True, v] for v in vals])
+    helper = getattr(mediatypes, '_split_media_ranges', None)
+    for v, out in zip(vals, outs):
+        mod = [common.wstr(x) for x in out]
+        impl = helper(v) if helper else v.split(',')
+        ctx.count('split')
+        ctx.note_case(('split', v), len(mod) > 1 and '"' in v)
+        if impl != mod:
+            # judge by the spec: a member boundary inside a well-formed quoted string is the violation
+            disagree('split_media_ranges', {'what': 'the range list is split differently from the model',
+                                            'header': v, 'impl': impl, 'model': mod})
+
+
 # --------------------------------------------------------------------------- handlers
 
 KEYS = ['application/json', 'application/json; charset=utf-8', 'text/plain', 'text/*', '*/*', 'application/*',
@@ -259,6 +289,8 @@ KEYS = ['application/json', 'application/json; charset=utf-8', 'text/plain', 'te
 RESOLVE = KEYS + ['application/json; charset=UTF-8', 'text/html', 'text/plain; q=0', 'text/plain;q=0.5', None, '',
                   'application/json, text/plain', 'text', 'multipart/form-data; boundary="a,b"', 'image/png',
                   'text/html;level=1', 'text/html;level=2', 'multipart/form-data; boundary=xyz', 'text/plain;q=abc',
+                  'multipart/form-data; boundary="a\\",b"', 'text/plain; k="x, text/html', 'text/plain;k="a,b";q=0',
+                  'application/json;k="\\\\", text/plain',
                   'text/xml;q=1e-1']
 DEFAULTS = ['application/json', 'text/plain', 'image/png']
 
@@ -471,10 +503,10 @@ def run_history(ctx, model, falcon, table, default_keys, hops_gen, initial):
         if o[0] == 'resolve':
             # binding: what the CURRENT mapping designates (spec evaluated on the real items)
             key = [[] if o[1] is None else [o[1]], o[2], o[3]]
-            spec_cases.append([6, table, world.items(i), key])
+            spec_cases.append([6, cfg(table), world.items(i), key])
             pub = public_resolve(world, world.objs[i], o[1], o[2]) if o[3] else None
             spec_meta.append((step_no, i, o, ob[1], pub))
-    case = [5, table, [[k, h] for k, h in initial], fresh0, wire_ops]
+    case = [5, cfg(table), [[k, h] for k, h in initial], fresh0, wire_ops]
     return case, impl_obs, spec_cases, spec_meta, wire_ops
 
 
@@ -573,6 +605,7 @@ def main(ctx):
         pass
     check_negotiation(ctx, model, falcon, 2500 if quick else 25000)
     check_parse_header(ctx, model, falcon, quick)
+    check_split(ctx, model, falcon, quick)
     check_handlers(ctx, model, falcon, quick)
     seen = set()
     for key, detail in disagreements:
